@@ -1487,7 +1487,9 @@ class Interp:
             except Exception:   # noqa
                 ent = None
             if ent is not None and ent[0] is f:
-                return ent[1](self, ctx, args, kwargs, node)
+                r = ent[1](self, ctx, args, kwargs, node)
+                if r is not NotImplemented:
+                    return r
         model = models.lookup(f)
         if model is not None:
             if model not in models.CHOICE_AWARE:
